@@ -285,6 +285,12 @@ pub fn finish(ctx: &Ctx, meta: CheckMeta, total: Acc, started: Instant, verif_di
             n_viol += c;
         }
     }
+    // debugging aid: VERIF_SHOW_OTHER=1 prints a few violations that shared workloads tagged for other properties
+    if std::env::var("VERIF_SHOW_OTHER").is_ok() {
+        for v in total.viols.iter().filter(|v| v.prop != prop).take(6) {
+            eprintln!("other-property violation {}|{} detail={}", v.prop, v.sig, v.detail);
+        }
+    }
     for v in &total.viols {
         if v.prop != prop {
             continue;
